@@ -47,6 +47,7 @@ SubstrateOps(T) ==
     \cup {[op |-> "Rename", p |-> p, new |-> "r9"] : p \in Nodes(T)}
     \cup {[op |-> "Views"], [op |-> "Validate"]}
     \cup {[op |-> "HandleIfs", p |-> p] : p \in NodeSvcs(T)}
+    \cup {[op |-> "Navigate", p |-> p] : p \in El(T)}
 
 ExperimentOps(T) ==
          {[op |-> "AddNode", name |-> n, site |-> s, ntype |-> "VM", rp |-> <<>>] : n \in NodeNames \cup {"!x"}, s \in Sites}
@@ -74,6 +75,7 @@ ExperimentOps(T) ==
           ELSE {})
     \cup {[op |-> "Views"], [op |-> "Validate"]}
     \cup {[op |-> "HandleIfs", p |-> p] : p \in TopSvcs(T) \cup DedPorts(T)}
+    \cup {[op |-> "Navigate", p |-> p] : p \in El(T)}
 
 Ops(T) == IF Flavour = "substrate" THEN SubstrateOps(T) ELSE ExperimentOps(T)
 
